@@ -196,10 +196,6 @@ func (w *Writer) Write(pck *Packet) int {
 
 	if count > 0 {
 		w.receives = append(w.receives, receives)
-	} else {
-		pck := New(ErrDroppedPacket)
-		w.inbounds.Handle(pck)
-		w.in <- pck
 	}
 
 	return count
